@@ -111,12 +111,13 @@ func dedupLoop(configArgs map[string]string, w *fsnotify.Watcher, completedChann
 
 		for {
 			dirsToWatch := generateInWatchMode(configArgs)
-			if dirsToWatch != nil && len(dirsToWatch) > len(w.WatchList()) {
-				for _, dir := range dirsToWatch {
-					if err := w.Add(dir); err != nil {
-						completedChannel <- err
-						return
-					}
+			// Adding a directory that is already watched changes nothing. (Comparing the number of
+			// directories with the length of the watch list, which includes ".", left a single
+			// imported package unwatched.)
+			for _, dir := range dirsToWatch {
+				if err := w.Add(dir); err != nil {
+					completedChannel <- err
+					return
 				}
 			}
 
